@@ -15,6 +15,7 @@
 package harness
 
 import (
+	"bytes"
 	"encoding/binary"
 	"encoding/json"
 	"flag"
@@ -402,19 +403,41 @@ func (c *Check[C]) Rapid(t *testing.T, n int) {
 	s.Requested += int64(n)
 	mu.Unlock()
 	failed := false
+	var failedAt time.Time
+	var lastFail []byte
+	var lastMsg string
+	budget, err := time.ParseDuration(env("VERIF_SHRINK_BUDGET", "60s"))
+	if err != nil {
+		budget = time.Minute
+	}
 	rapid.Check(t, func(rt *rapid.T) {
 		v := c.Gen(rt)
 		raw, _ := json.Marshal(v)
+		if failed && bytes.Equal(raw, lastFail) {
+			// the shrinker often arrives at the same case by another route: the verdict is known
+			rt.Fatalf("%s", lastMsg)
+		}
+		if failed && time.Since(failedAt) > budget {
+			// shrinking has had its time (a failing execution can take many seconds when the failure is a reply that never comes, and
+			// rapid only looks at its own limit between passes): every further candidate counts as "does not fail", which ends the
+			// search at the smallest failing case found so far
+			return
+		}
 		journal(c.Name, raw)
 		r := c.runTimes(v, c.Repeat)
 		if !failed {
 			record(c.Name, raw, r)
 		}
 		if r.Err != nil {
+			if !failed {
+				failedAt = time.Now()
+			}
+			lastFail = raw
 			failed = true // from here on rapid is shrinking: do not count
 			p := writeReplay(t.Name(), c.Name, raw, r.Err.Error())
 			noteFailure(p)
-			rt.Fatalf("VIOLATION-FILE %s\ncheck %s: %v\ncase: %s", p, c.Name, r.Err, trunc(raw))
+			lastMsg = fmt.Sprintf("VIOLATION-FILE %s\ncheck %s: %v\ncase: %s", p, c.Name, r.Err, trunc(raw))
+			rt.Fatalf("%s", lastMsg)
 		}
 		if !failed {
 			mu.Lock()
@@ -574,6 +597,7 @@ type shardOut struct {
 
 // Main is called from each package's TestMain.
 func Main(m *testing.M) {
+	freshChild()
 	code := m.Run()
 	flush(code)
 	os.Exit(code)
